@@ -76,7 +76,12 @@ def gen_case(rng, tier, index):
                        "ops": [["gc", rng.random() < 0.7] for _ in range(rng.choice([1, 2]))]})
     sizes = [rng.choice([10, 300, 2000, 9000]) for _ in range(npk)]
     quota = rng.choice([None, None, 0, 500, 3000, 12000, 100000])
-    return {"actors": actors, "sizes": sizes, "quota": quota, "autoClean": rng.random() < 0.7,
+    extra = {}
+    if rng.random() < 0.2:
+        # fault configuration: one of the moves a gc performs fails (EACCES: the package belongs to another
+        # user of the shared store, EBUSY, EIO); the gc may fail, the accounting must stay truthful
+        extra["gc_rename_fault"] = {"pick": rng.randrange(100), "errno": rng.choice([13, 16, 5])}
+    return {**extra, "actors": actors, "sizes": sizes, "quota": quota, "autoClean": rng.random() < 0.7,
             "store_exists": rng.choice(["no", "empty", "empty"]),
             "sched_seed": rng.getrandbits(32), "stickiness": rng.choice([0.0, 0.6, 0.9, 0.97]),
             "decisions": None}
@@ -106,6 +111,17 @@ def directed_cases(tier):
                     {"name": "p1", "kind": "proj", "ops": [["build", 1], ["build", 0], ["build", 1], ["unuse", 0], ["unuse", 1], ["build", 2]]}],
          "sizes": [2000, 2000, 2000], "quota": 9000, "autoClean": True, "store_exists": "empty", "sched_seed": 6,
          "stickiness": 0.9, "decisions": None, "directed": "LRU with two projects"},
+        # a gc that has to move several packages fails at the second / third move (fault configuration)
+        {"actors": [{"name": "p0", "kind": "proj", "ops": [["build", 0], ["build", 1], ["build", 2], ["unuse", 0], ["unuse", 1], ["unuse", 2],
+                                                           ["gc", True], ["gc", True]]}],
+         "sizes": [2000, 2000, 2000], "quota": None, "autoClean": True, "store_exists": "empty", "sched_seed": 8,
+         "stickiness": 0.0, "decisions": None, "gc_rename_fault": {"pick": 1, "errno": 13},
+         "directed": "gc fails at its second move"},
+        {"actors": [{"name": "p0", "kind": "proj", "ops": [["build", 0], ["build", 1], ["build", 2], ["unuse", 0], ["unuse", 1], ["unuse", 2]]},
+                    {"name": "g0", "kind": "gc", "ops": [["gc", True], ["gc", True]]}],
+         "sizes": [300, 2000, 10], "quota": 100, "autoClean": False, "store_exists": "empty", "sched_seed": 9,
+         "stickiness": 0.97, "decisions": None, "gc_rename_fault": {"pick": 2, "errno": 16},
+         "directed": "gc fails at its third move"},
     ]
 
 # ---------------------------------------------------------------------------
@@ -266,6 +282,24 @@ def _links_to(root, case, k):
     return out
 
 def run_case(case):
+    """Fault-free run; in the fault configuration (kept apart) the same schedule is run once more
+    with an I/O error at one of the moves of a garbage collection."""
+    r = _run(case, [])
+    gf = case.get("gc_rename_fault")
+    if gf and r["violation"] is None and r.get("_gc_renames"):
+        name, at = r["_gc_renames"][gf["pick"] % len(r["_gc_renames"])]
+        flt = {"actor": name, "at": at, "kind": "errno", "errno": gf["errno"]}
+        r2 = _run(dict(case, decisions=r["_decisions"]), [flt])
+        r2["stats"]["fault_gc_rename_errno"] = 1
+        for k, v in r["stats"].items():
+            r2["stats"][k] = r2["stats"].get(k, 0) + v
+        r2["digest"] = common.digest_of([r["digest"], r2["digest"]])
+        r = r2
+    r.pop("_gc_renames", None)
+    r.pop("_decisions", None)
+    return r
+
+def _run(case, faults):
     from bob.utils import hashDirectory
     stats = common.Counter()
     root = common.scratch_dir("c15-%d" % os.getpid())
@@ -282,7 +316,8 @@ def run_case(case):
             write_pkg_content(d, k, case["sizes"][k])
             expect[k] = (treecmp.canon_digest(d), hashDirectory(d))
         sim = procsim.ProcSim(root, decisions=case.get("decisions"), sched_seed=case["sched_seed"],
-                              stickiness=case["stickiness"])
+                              stickiness=case["stickiness"], faults=faults)
+        faulted = {f["actor"] for f in faults}
         for a in case["actors"]:
             sim.spawn(a["name"], _actor, root, a, case)
         seen_ino = {}
@@ -501,7 +536,9 @@ def run_case(case):
             if a.result[0] == "exc":
                 if "SimHarnessError" in a.result[1][0]:
                     raise procsim.SimHarnessError(a.result[1][0])
-                if viol is None:
+                if viol is None and a.name in faulted and "[Errno" in a.result[1][0]:
+                    stats.inc("operation_failed_by_injected_error")     # it may fail; the store must stay consistent
+                elif viol is None:
                     viol = {"kind": "operation-failed", "detail": "%s: %s || %s" % (a.name, a.result[1][0], a.result[1][1][-1800:])}
                 results[a.name] = "exc"
             else:
@@ -535,7 +572,10 @@ def run_case(case):
         log = [(e[1], e[2], e[3]) for e in sim.log]
         names = [e[0] for e in log if e[1] not in ("start",)]
         comp = [n for i, n in enumerate(names) if i == 0 or names[i - 1] != n]
+        gc_renames = [(a.name, h[0]) for a in sim.actors for h in a.history
+                      if h[1] == "os.rename" and h[2] and isinstance(h[2][0], str) and h[2][0].endswith("-3")]
         return {"violation": viol, "digest": common.digest_of(log), "stats": dict(stats),
+                "_gc_renames": gc_renames, "_decisions": list(sim.decisions),
                 "nontrivial": len(comp) >= 3, "sim_time": float(sim.step),
                 "sample": {"actors": case["actors"], "quota": case["quota"], "sizes": case["sizes"],
                            "store_exists": case["store_exists"], "directed": case.get("directed"),
